@@ -155,12 +155,13 @@ func crowd(t *testing.T, out *vt.Writer, backend string, mk lockMaker, waiters i
 func TestLockContention(t *testing.T) {
 	out := vt.OpenTrace(t)
 	defer out.Close()
-	emk, _ := etcdMaker(t)
+	emk, cli := etcdMaker(t)
 	rmk, _ := redisMaker(t)
 	runs := vt.EnvInt("VERIF_RUNS", 2)
 	cycles := vt.EnvInt("VERIF_CYCLES", 15)
 	seed := vt.Seed()
 	jit := vt.StartJitter()
+	jit.Probe(func() { _, _ = cli.Get(context.Background(), "/verif-probe") }, 300*time.Millisecond)
 	defer jit.Stop()
 	dropped := 0
 	guarded := func(f func()) { // a run during which this process was starved of CPU says nothing about time bounds
@@ -264,6 +265,7 @@ func TestLockLoss(t *testing.T) {
 	rmk, mr := redisMaker(t)
 	runs := vt.EnvInt("VERIF_RUNS", 2)
 	jit := vt.StartJitter()
+	jit.Probe(func() { _, _ = cli.Get(context.Background(), "/verif-probe") }, 300*time.Millisecond)
 	defer jit.Stop()
 	guarded := func(f func()) {
 		t0 := time.Now()
